@@ -306,3 +306,126 @@ theorem splitParts_some (lay : Layout) (bs : Bytes) (ps : List Bytes) (h : split
         List.take_append_drop]
 
 end Zrnt.Proofs.SSZ
+
+namespace Zrnt.Proofs.SSZ
+open Zrnt.SSZ
+
+/-! ### homogeneous layouts (vectors and lists) -/
+
+theorem fixedPartLen_replicate_some (n s : Nat) : fixedPartLen (List.replicate n (some s)) = n * s := by
+  induction n with
+  | zero => simp [fixedPartLen]
+  | succ n ih => simp [List.replicate_succ, fixedPartLen, ih, Nat.succ_mul]; omega
+
+theorem fixedPartLen_replicate_none (n : Nat) : fixedPartLen (List.replicate n none) = 4 * n := by
+  induction n with
+  | zero => simp [fixedPartLen]
+  | succ n ih => simp [List.replicate_succ, fixedPartLen, ih]; omega
+
+theorem varParts_replicate_some (n s : Nat) (ps : List Bytes) : varParts (List.replicate n (some s)) ps = [] := by
+  induction n generalizing ps with
+  | zero => cases ps <;> simp [varParts]
+  | succ n ih => cases ps <;> simp [List.replicate_succ, varParts, ih]
+
+theorem varParts_replicate_none (ps : List Bytes) : varParts (List.replicate ps.length none) ps = ps := by
+  induction ps with
+  | nil => simp [varParts]
+  | cons p ps ih => simp [List.replicate_succ, varParts, ih]
+
+/-- every part is at most as long as the whole encoding -/
+theorem part_length_le (lay : Layout) (ps : List Bytes) (h : Compat lay ps) (p : Bytes) (hp : p ∈ ps) :
+    p.length ≤ (joinParts lay ps).length := by
+  rw [joinParts_length lay ps h]
+  induction lay generalizing ps with
+  | nil => cases ps <;> simp_all [Compat]
+  | cons e l ih =>
+    cases ps with
+    | nil => simp at hp
+    | cons q qs =>
+      cases e with
+      | none =>
+        simp only [Compat] at h
+        simp only [fixedPartLen, varParts, List.flatten_cons, List.length_append]
+        rcases List.mem_cons.mp hp with rfl | hq
+        · omega
+        · have := ih qs h hq; omega
+      | some n =>
+        simp only [Compat] at h
+        simp only [fixedPartLen, varParts]
+        rcases List.mem_cons.mp hp with rfl | hq
+        · omega
+        · have := ih qs h.2 hq; omega
+
+theorem splitList_joinParts (fl : Option Nat) (lim : Nat) (ps : List Bytes)
+    (hc : Compat (List.replicate ps.length fl) ps) (hlim : ps.length ≤ lim)
+    (hs : ∀ s, fl = some s → 0 < s)
+    (hlen : (joinParts (List.replicate ps.length fl) ps).length < 2 ^ 32) :
+    splitList fl lim (joinParts (List.replicate ps.length fl) ps) = some ps := by
+  have hsp := splitParts_joinParts _ ps hc hlen
+  have hl := joinParts_length _ ps hc
+  cases fl with
+  | some s =>
+    have hs0 := hs s rfl
+    rw [fixedPartLen_replicate_some, varParts_replicate_some] at hl
+    simp only [List.flatten_nil, List.length_nil, Nat.add_zero] at hl
+    unfold splitList
+    simp only
+    rw [if_neg (by omega), hl, Nat.mul_mod_left, if_neg (by simp), Nat.mul_div_cancel _ hs0, if_neg (by omega)]
+    exact hsp
+  | none =>
+    unfold splitList
+    simp only
+    cases ps with
+    | nil => simp [joinParts, fixedSection, varSection]
+    | cons p ps =>
+      rw [fixedPartLen_replicate_none] at hl
+      have hne : (joinParts (List.replicate (p :: ps).length none) (p :: ps)).isEmpty = false := by
+        rw [List.isEmpty_eq_false_iff]; intro h0; rw [h0] at hl; simp at hl; omega
+      rw [hne]
+      simp only [Bool.false_eq_true, ↓reduceIte]
+      rw [if_neg (by simp only [List.length_cons] at hl ⊢; omega)]
+      have htake : List.take 4 (joinParts (List.replicate (p :: ps).length none) (p :: ps))
+          = natToLE 4 (4 * (p :: ps).length) := by
+        simp only [joinParts, List.length_cons, List.replicate_succ, fixedSection, fixedPartLen,
+          fixedPartLen_replicate_none, List.append_assoc]
+        rw [List.take_left' (natToLE_length 4 _)]
+        congr 1; omega
+      rw [htake, leToNat_natToLE 4 _ (by simp only [List.length_cons] at hl hlen ⊢; omega)]
+      rw [Nat.mul_mod_right, if_neg (by simp), Nat.mul_div_cancel_left _ (by omega : 0 < 4), if_neg (by omega)]
+      exact hsp
+
+theorem splitList_some (fl : Option Nat) (lim : Nat) (bs : Bytes) (ps : List Bytes)
+    (h : splitList fl lim bs = some ps) :
+    ps.length ≤ lim ∧ Compat (List.replicate ps.length fl) ps ∧ joinParts (List.replicate ps.length fl) ps = bs := by
+  unfold splitList at h
+  cases fl with
+  | some s =>
+    simp only at h
+    split at h; · simp at h
+    split at h; · simp at h
+    split at h; · simp at h
+    rename_i h1 h2 h3
+    obtain ⟨hc, hj⟩ := splitParts_some _ _ _ h
+    have hl := compat_length hc
+    simp only [List.length_replicate] at hl
+    rw [hl]
+    exact ⟨by omega, hc, hj⟩
+  | none =>
+    simp only at h
+    split at h
+    · rename_i he
+      simp at h; subst h
+      simp only [List.isEmpty_iff] at he
+      subst he
+      simp [Compat, joinParts, fixedSection, varSection]
+    · split at h; · simp at h
+      split at h; · simp at h
+      split at h; · simp at h
+      rename_i h1 h2 h3
+      obtain ⟨hc, hj⟩ := splitParts_some _ _ _ h
+      have hl := compat_length hc
+      simp only [List.length_replicate] at hl
+      rw [hl]
+      exact ⟨by omega, hc, hj⟩
+
+end Zrnt.Proofs.SSZ
